@@ -580,6 +580,20 @@ family!(t_usizevec2, t_usizevec3, t_usizevec4, USizeVec2, USizeVec3, USizeVec4, 
 acc4!(t_quat, Quat, f32, quat, quat, float, Vec4);
 acc4!(t_dquat, DQuat, f64, dquat, quat, float, DVec4);
 
+/// (type name, history check) of every type: the entry points of the libFuzzer target engine/fuzz/fuzz_targets/c17_history.rs
+#[allow(dead_code)]
+pub fn history_checks() -> Vec<(&'static str, fn(&[u64], &mut Tally) -> Result<(), Fail>)> {
+    let mut out: Vec<(&'static str, fn(&[u64], &mut Tally) -> Result<(), Fail>)> = vec![];
+    macro_rules! reg {
+        ($($m:ident)+) => { $( out.push(($m::TY, $m::check)); )+ };
+    }
+    reg!(t_vec2 t_vec3 t_vec3a t_vec4 t_dvec2 t_dvec3 t_dvec4);
+    reg!(t_i8vec2 t_i8vec3 t_i8vec4 t_u8vec2 t_u8vec3 t_u8vec4 t_i16vec2 t_i16vec3 t_i16vec4 t_u16vec2 t_u16vec3 t_u16vec4);
+    reg!(t_ivec2 t_ivec3 t_ivec4 t_uvec2 t_uvec3 t_uvec4 t_i64vec2 t_i64vec3 t_i64vec4 t_u64vec2 t_u64vec3 t_u64vec4);
+    reg!(t_usizevec2 t_usizevec3 t_usizevec4 t_quat t_dquat);
+    out
+}
+
 pub fn subs<'a>(_args: &Args) -> Vec<SubCheck<'a>> {
     let mut out: Vec<SubCheck<'a>> = vec![];
     macro_rules! reg {
